@@ -14,6 +14,7 @@ CONSTANTS
   FIX_READD = TRUE
   FIX_STALE = TRUE
   FIX_RENAMEDIR = TRUE
+  FIX_SCANWATCHED = TRUE
   RECORD = FALSE
 INVARIANTS TypeOK Bounded WatchesOK
 PROPERTIES Converges ErrConverges Settles ConfigureFresh
